@@ -765,6 +765,75 @@ func (c *concCtx) scenarioLagging(g *rng, round int) {
 
 // scenarioStaleHandle: C14 / C06 — calls on a closed Watcher are inert: they must not reach a newer
 // Watcher that happens to have been handed the same descriptor number.
+// scenarioClosedMeanwhile: C14 — one Watcher is closed while its reader still has a record to handle (its
+// bookkeeping mutex is held, as by a long-running Add/Remove/WatchList, so the reader waits in front of
+// handleEvent with an IN_MOVE_SELF in hand); other Watchers are created and used meanwhile. Whatever the
+// closing one still does must stay inside its own inotify instance: the others keep their watches and
+// deliver their events.
+func (c *concCtx) scenarioClosedMeanwhile() {
+	for round := 0; round < 6; round++ {
+		dir, err := os.MkdirTemp("", "fsnverif-meanwhile")
+		check(err)
+		other := filepath.Join(dir, "other")
+		check(os.Mkdir(other, 0o755))
+		f := filepath.Join(dir, "f")
+		check(os.WriteFile(f, nil, 0o644))
+		a, err := newW()
+		check(err)
+		go func() { // A's consumer
+			for a.Events != nil {
+				select {
+				case _, ok := <-a.Events:
+					if !ok {
+						return
+					}
+				case _, ok := <-a.Errors:
+					if !ok {
+						return
+					}
+				}
+			}
+		}()
+		check(a.Add(f))
+		release := fsnotify.VerifHoldMu(a)
+		os.Rename(f, f+".moved") // IN_MOVE_SELF: the reader reads it and waits for the mutex
+		time.Sleep(20 * time.Millisecond)
+		closed := make(chan struct{})
+		go func() { a.Close(); close(closed) }()
+		time.Sleep(20 * time.Millisecond)
+		var bs []*fsnotify.Watcher
+		for i := 0; i < 4; i++ { // whoever gets a recycled descriptor number, and the same wd numbers
+			b, err := newW()
+			check(err)
+			check(b.Add(other))
+			bs = append(bs, b)
+		}
+		release()
+		okClose := c.within("C05", "C05:close-blocked", "closed-meanwhile: Close did not return after the mutex was released", func() { <-closed })
+		p := filepath.Join(other, fmt.Sprintf("n%d", round))
+		os.WriteFile(p, nil, 0o644)
+		for i, b := range bs {
+			if l := b.WatchList(); len(l) != 1 {
+				c.report("C14", "C14:other-watcher-disturbed", fmt.Sprintf("Watcher %d created while another one was being closed: WatchList = %v, it added %q and removed nothing", i, l, other),
+					map[string]interface{}{"history": []string{"A.Add(f)", "hold A's mutex", "rename f", "go A.Close()", "B_i := NewWatcher(); B_i.Add(other)", "release", "create other/n"}})
+			}
+			select {
+			case e := <-b.Events:
+				if e.Name != p {
+					c.report("C14", "C14:other-watcher-disturbed", fmt.Sprintf("Watcher %d: unexpected event %v", i, e), map[string]interface{}{})
+				}
+			case <-time.After(2 * time.Second):
+				c.report("C14", "C14:other-watcher-disturbed", fmt.Sprintf("Watcher %d, created while another one was being closed, delivers nothing for a file created in the directory it watches", i),
+					map[string]interface{}{"history": []string{"A.Add(f)", "hold A's mutex", "rename f", "go A.Close()", "B_i := NewWatcher(); B_i.Add(other)", "release", "create other/n"}})
+			}
+			b.Close()
+		}
+		_ = okClose
+		os.RemoveAll(dir)
+	}
+	c.r.emit("scenario", "scenario closed_meanwhile", "ok")
+}
+
 func (c *concCtx) scenarioStaleHandle() {
 	dir, err := os.MkdirTemp("", "fsnverif-stale")
 	check(err)
@@ -1085,6 +1154,7 @@ func runConc(r *rec, g *rng, tier, what, out string, extra map[string]interface{
 			c.scenarioIndependence(g, nw)
 		}
 		c.scenarioStaleHandle()
+		c.scenarioClosedMeanwhile()
 		nlag := 40
 		if thorough {
 			nlag = 600
